@@ -67,6 +67,14 @@ def run(facts, rep, tier, ctx):
             if "remove_dir_all" in d or "only after the copy" in d:
                 # recursive removal must dispatch children by type and remove the directory last, else entries are orphaned
                 rep.ob(tag + "R03.2", o["fn"], d, o["ok"], o["detail"], o["loc"])
+        # copy_dir / move_dir create every directory through the path type's create_dir (which checks parent-is-directory):
+        # a direct backend call would graft the subtree below a file
+        scratch5 = Report("g")
+        pr.generic_routes(scratch5, "G")
+        for o in scratch5.obligations:
+            d = o["key"].split("|")[2]
+            if "child directory" in d or "create_dir" in d or "present" in d:
+                rep.ob(tag + "R03.1g", o["fn"], d, o["ok"], o["detail"], o["loc"])
     if wa.present():
         scratch4 = Report("w")
         c01.table_m(facts, scratch4, "M", "Mk", self_ty=wa.memory, trait="AsyncFileSystem")
@@ -77,13 +85,19 @@ def run(facts, rep, tier, ctx):
             op = desc.split(":")[0]
             if op in want and any(("'%s" % g) in desc for g in want[op][1]):
                 rep.ob("A/" + want[op][0], o["fn"], desc, o["ok"], o["detail"], o["loc"])
-    # R03.3 publication
+    # R03.3 publication; R03.6 the guards above hold *when the mutation happens*: check and mutation of the in-memory
+    # backends share one critical section (C16's R16.1 / R16.5 / R16.6) — a guard evaluated under an earlier lock is stale
     from . import c16
     scratch3 = Report("z")
     c16.run(facts, scratch3, tier, ctx)
     for o in scratch3.obligations:
-        if o["rule"] == "R16.3":
+        r_ = o["rule"]
+        if r_ == "R16.3":
             rep.ob("R03.3", o["fn"], o["key"].split("|")[2], o["ok"], o["detail"], o["loc"])
+        if r_ in ("A/R16.3",):
+            rep.ob("A/R03.3", o["fn"], o["key"].split("|")[2], o["ok"], o["detail"], o["loc"])
+        if r_.replace("A/", "") in ("R16.1", "R16.5", "R16.6"):
+            rep.ob(("A/" if r_.startswith("A/") else "") + "R03.6", o["fn"], o["key"].split("|")[2], o["ok"], o["detail"], o["loc"])
     # R03.4 root
     ctor = facts.body("impls::memory::MemoryFsImpl::new")
     ok = False
